@@ -1,8 +1,9 @@
 /-
   C11 — interpolation: endpoints, validity, constant-rate rotation.
   Proved on the traced `slerp` (both `shortest` settings): exact end points, rejection of s outside [0,1], the value on
-  the main path is (q sin((1−s)Ω) + p sin(sΩ)) / sin Ω with Ω = acos(q·p), it has unit norm, and the `shortest` variant
-  is the plain one applied to −q when q·p < 0.
+  the main path is the combination q sin((1−s)Ω) + p sin(sΩ), Ω = acos(q·p), divided by its own length — a unit quaternion
+  whenever the combination does not vanish, and equal to the textbook (…)/sin Ω on the arc (sin Ω > 0) — and the `shortest`
+  variant is the plain one applied to −q when q·p < 0.
   Explored (smv/props/c11.py, 1e-6): the matrix interpolators trinterp / trinterp2 (too many paths to translate as a whole:
   q2r ∘ slerp ∘ r2q), UnitQuaternion.interp (uses float()), the tiny-angle cut, class methods.
 -/
@@ -37,17 +38,22 @@ theorem slerp_range (q p : Vec 4 R) (s : R) (hs : s < 0 ∨ 1 < s) :
   · unfold Gen.slerp
     rcases hs with h | h
     · rw [if_neg (not_le.mpr h)]
-    · split_ifs with h1 h2 <;> first | rfl | (exfalso; linarith)
+    · rw [if_pos (show s ≥ 0 from le_of_lt (lt_trans zero_lt_one h)), if_neg (not_le.mpr h)]
   · unfold Gen.slerp_shortest
     rcases hs with h | h
     · rw [if_neg (not_le.mpr h)]
-    · split_ifs with h1 h2 <;> first | rfl | (exfalso; linarith)
+    · rw [if_pos (show s ≥ 0 from le_of_lt (lt_trans zero_lt_one h)), if_neg (not_le.mpr h)]
 
-/-- structure of every value: q (also: tiny angle), p, or the spherical combination with Ω = acos of the clipped q·p -/
+/-- the spherical combination before normalisation -/
+def comb (P : Prims R) (q p : Vec 4 R) (s Ω : R) (i : Fin 4) : R := q i * P.sin ((1 - s) * Ω) + p i * P.sin (s * Ω)
+
+/-- structure of every value: q (also: tiny angle), p, or the spherical combination with Ω = acos of the clipped q·p, divided by
+    its own length -/
 theorem slerp_value (q p r : Vec 4 R) (s : R) (h : Gen.slerp P q p s = .ok r) :
     r = q ∨ r = p ∨
     ∃ Ω : R, Ω = P.acos (if qinner q p < -1 then -1 else qinner q p) ∧ qinner q p ≤ 1 ∧
-      ∀ i, r i = (q i * P.sin ((1 - s) * Ω) + p i * P.sin (s * Ω)) / P.sin Ω := by
+      ∀ i, r i = comb P q p s Ω i / P.sqrt (comb P q p s Ω 0 * comb P q p s Ω 0 + comb P q p s Ω 1 * comb P q p s Ω 1
+                                           + comb P q p s Ω 2 * comb P q p s Ω 2 + comb P q p s Ω 3 * comb P q p s Ω 3) := by
   unfold Gen.slerp at h; simp only [] at h
   have eta4 : ∀ x : Vec 4 R, v4 (x 0) (x 1) (x 2) (x 3) = x := fun x => by apply Vec.ext4 <;> simp
   split_ifs at h with h1 h2 h3 h4 h5 h6 h7 h8 <;> cases h
@@ -58,7 +64,7 @@ theorem slerp_value (q p r : Vec 4 R) (s : R) (h : Gen.slerp P q p s = .ok r) :
     · have h5' : qinner q p < -1 := h5
       rw [if_pos h5']
     · simp only [qinner]; linarith
-    · intro i; fin_cases i <;> simp
+    · intro i; fin_cases i <;> simp [comb]
   · left; exact eta4 q
   · left; exact eta4 q
   · right; right
@@ -66,36 +72,66 @@ theorem slerp_value (q p r : Vec 4 R) (s : R) (h : Gen.slerp P q p s = .ok r) :
     · have h5' : ¬ (qinner q p < -1) := h5
       rw [if_neg h5']
     · simp only [qinner]; linarith
-    · intro i; fin_cases i <;> simp [qinner]
+    · intro i; fin_cases i <;> simp [qinner, comb]
   · left; exact eta4 q
 
-/-- trigonometric laws used for the norm of the interpolant -/
+/-- trigonometric laws used for the length of the combination -/
 structure AddLaw (P : Prims R) : Prop where
   sin_add : ∀ a b, P.sin (a + b) = P.sin a * P.cos b + P.cos a * P.sin b
   cos_add : ∀ a b, P.cos (a + b) = P.cos a * P.cos b - P.sin a * P.sin b
 
-/-- the spherical combination of two unit quaternions whose inner product is cos Ω has unit norm (sin Ω ≠ 0) -/
-theorem slerp_unit (hT : P.Trig) (hL : AddLaw P) (q p r : Vec 4 R) (s Ω : R) (hq : qnormsq q = 1) (hp : qnormsq p = 1)
-    (hd : qinner q p = P.cos Ω) (hS : P.sin Ω ≠ 0)
-    (hr : ∀ i, r i = (q i * P.sin ((1 - s) * Ω) + p i * P.sin (s * Ω)) / P.sin Ω) : qnormsq r = 1 := by
+/-- a vector divided by its (non-zero) length has unit norm: the interpolant is a unit quaternion whenever the combination does not vanish
+    (no trigonometric law needed) -/
+theorem slerp_unit (hS : P.Sqrt) (c r : Vec 4 R) (hne : c 0 * c 0 + c 1 * c 1 + c 2 * c 2 + c 3 * c 3 ≠ 0)
+    (hr : ∀ i, r i = c i / P.sqrt (c 0 * c 0 + c 1 * c 1 + c 2 * c 2 + c 3 * c 3)) : qnormsq r = 1 := by
+  have hnn : 0 ≤ c 0 * c 0 + c 1 * c 1 + c 2 * c 2 + c 3 * c 3 := by
+    have := mul_self_nonneg (c 0); have := mul_self_nonneg (c 1); have := mul_self_nonneg (c 2); have := mul_self_nonneg (c 3); linarith
+  have hrr := hS.mul_self _ hnn
+  have hr0 : P.sqrt (c 0 * c 0 + c 1 * c 1 + c 2 * c 2 + c 3 * c 3) ≠ 0 := by
+    intro hz; rw [hz] at hrr; exact hne (by linarith)
+  simp only [qnormsq]
+  rw [hr 0, hr 1, hr 2, hr 3]
+  generalize P.sqrt (c 0 * c 0 + c 1 * c 1 + c 2 * c 2 + c 3 * c 3) = n at *
+  field_simp
+  linear_combination (-1 : R) * hrr
+
+/-- for unit quaternions whose inner product is cos Ω the combination has length |sin Ω| -/
+theorem comb_normsq (hT : P.Trig) (hL : AddLaw P) (q p : Vec 4 R) (s Ω : R) (hq : qnormsq q = 1) (hp : qnormsq p = 1)
+    (hd : qinner q p = P.cos Ω) :
+    comb P q p s Ω 0 * comb P q p s Ω 0 + comb P q p s Ω 1 * comb P q p s Ω 1 + comb P q p s Ω 2 * comb P q p s Ω 2
+      + comb P q p s Ω 3 * comb P q p s Ω 3 = P.sin Ω * P.sin Ω := by
   have eΩ : Ω = (1 - s) * Ω + s * Ω := by ring
   have hs := hL.sin_add ((1 - s) * Ω) (s * Ω)
   have hc := hL.cos_add ((1 - s) * Ω) (s * Ω)
   rw [← eΩ] at hs hc
   have ta := hT ((1 - s) * Ω); have tb := hT (s * Ω)
-  simp only [qnormsq, qinner] at hq hp hd ⊢
-  rw [hr 0, hr 1, hr 2, hr 3]
+  simp only [qnormsq, qinner, comb] at hq hp hd ⊢
   generalize P.sin ((1 - s) * Ω) = A at *
   generalize P.sin (s * Ω) = B at *
   generalize P.cos ((1 - s) * Ω) = Ca at *
   generalize P.cos (s * Ω) = Cb at *
-  generalize P.sin Ω = S at *
-  generalize P.cos Ω = C at *
-  field_simp
-  subst hs
-  have key : (q 0 * A + p 0 * B) * (q 0 * A + p 0 * B) + (q 1 * A + p 1 * B) * (q 1 * A + p 1 * B) + (q 2 * A + p 2 * B) * (q 2 * A + p 2 * B)
-      + (q 3 * A + p 3 * B) * (q 3 * A + p 3 * B) = (A * Cb + Ca * B) * (A * Cb + Ca * B) := by
-    linear_combination (A * A) * hq + (B * B) * hp + (2 * A * B) * hd + (2 * A * B) * hc - (B * B) * ta - (A * A) * tb
-  first | linear_combination key | linear_combination -key | (rw [← key]; ring)
+  rw [hs]
+  rw [hc] at hd
+  linear_combination (A * A) * hq + (B * B) * hp + (2 * A * B) * hd - (B * B) * ta - (A * A) * tb
+
+/-- … so on the arc (sin Ω > 0) the normalised value is the textbook spherical interpolant
+    (q sin((1−s)Ω) + p sin(sΩ)) / sin Ω -/
+theorem slerp_is_spherical (hS : P.Sqrt) (hT : P.Trig) (hL : AddLaw P) (q p r : Vec 4 R) (s Ω : R) (hq : qnormsq q = 1) (hp : qnormsq p = 1)
+    (hd : qinner q p = P.cos Ω) (hpos : 0 < P.sin Ω)
+    (hr : ∀ i, r i = comb P q p s Ω i / P.sqrt (comb P q p s Ω 0 * comb P q p s Ω 0 + comb P q p s Ω 1 * comb P q p s Ω 1
+                                               + comb P q p s Ω 2 * comb P q p s Ω 2 + comb P q p s Ω 3 * comb P q p s Ω 3)) :
+    (∀ i, r i = (q i * P.sin ((1 - s) * Ω) + p i * P.sin (s * Ω)) / P.sin Ω) ∧ qnormsq r = 1 := by
+  have hn := comb_normsq P hT hL q p s Ω hq hp hd
+  have hsq : P.sqrt (P.sin Ω * P.sin Ω) = P.sin Ω := by
+    have h1 := hS.mul_self _ (mul_self_nonneg (P.sin Ω))
+    have h0 := hS.nonneg (P.sin Ω * P.sin Ω)
+    have h2 : (P.sqrt (P.sin Ω * P.sin Ω) - P.sin Ω) * (P.sqrt (P.sin Ω * P.sin Ω) + P.sin Ω) = 0 := by linear_combination h1
+    rcases mul_eq_zero.mp h2 with h | h
+    · linarith
+    · exfalso; linarith
+  constructor
+  · intro i; rw [hr i, hn, hsq]; rfl
+  · refine slerp_unit P hS (comb P q p s Ω) r ?_ hr
+    rw [hn]; exact ne_of_gt (mul_pos hpos hpos)
 
 end SmVerif.Props.C11
